@@ -310,3 +310,6 @@ def b_kepler(rng, tier):
         if not (2 * math.pi * bb * (1 - 1e-9) <= L <= 2 * math.pi * a * (1 + 1e-9)):
             ok, det = False, ("length bounds", L, 2 * math.pi * bb, 2 * math.pi * a)
         yield ((e, a, w), ok, det)
+
+
+P.frame_check()
